@@ -3,7 +3,7 @@ from checks.common import lsim_cases, trace_has_output
 import itertools
 
 V2KEYS = {'a': 30, 's': 31, 'd': 32, 'f': 33, 'g': 34, 'h': 35}
-ACT = {'1': 2, '2': 3, '3': 4, '4': 5, '5': 6, '6': 7}      # chord actions: digits, output by nothing else
+ACT = {str(i): ('U%d' % ord(str(i))) for i in range(1, 7)}      # chord actions: (unicode <digit>), a non-idempotent output nothing else produces
 BASEOUT = {30: 30, 31: 31, 32: 32, 33: 33, 34: 34, 35: 35}
 
 
@@ -25,7 +25,7 @@ def v2_case(rng, i):
             chords.append((ks, str(len(chords) + 1), rng.choice([40, 100]), rng.choice(['first-release', 'all-released']),
                            rng.choice([(), (), ('base',), ('other',)])))
     cfg = '(defcfg concurrent-tap-hold yes)\n(defsrc a s d f g h j)\n(deflayer base a s d f g h (layer-while-held other))\n(deflayer other a s d f g h _)\n' \
-          '(defchordsv2 %s)' % ' '.join('(%s) %s %d %s (%s)' % (' '.join(c[0]), c[1], c[2], c[3], ' '.join(c[4])) for c in chords)
+          '(defchordsv2 %s)' % ' '.join('(%s) (unicode %s) %d %s (%s)' % (' '.join(c[0]), c[1], c[2], c[3], ' '.join(c[4])) for c in chords)
     target = rng.choice(chords)
     layer = rng.choice(['base', 'base', 'other'])
     h = ['t5']
@@ -33,18 +33,26 @@ def v2_case(rng, i):
         h += ['d36', 't300']          # hold the layer key long enough to be past any chord timeout
     order = list(target[0]); rng.shuffle(order)
     kind = rng.choice(['exact', 'exact', 'abort'])
+    burst = rng.random() < 0.3      # presses (and the first release) arrive within one tick, as in a fast roll
     for k in order:
-        h += ['d%d' % V2KEYS[k], 't%d' % rng.randint(1, 8)]
+        h += ['d%d' % V2KEYS[k]] + ([] if burst else ['t%d' % rng.randint(1, 8)])
+    if burst and rng.random() < 0.7:
+        h += ['u%d' % V2KEYS[order[0]], 'd%d' % V2KEYS[order[0]]] if False else ['u%d' % V2KEYS[order[0]]]
+        burst_released = order[0]
+    else:
+        burst_released = None
     extra = None
-    if kind == 'abort':
+    if kind == 'abort' and burst_released is None:
         cand = [k for k in keys if k not in target[0] and not any(set(target[0]) | {k} <= set(c[0]) for c in chords)]
         if cand:
             extra = rng.choice(cand)
             h += ['d%d' % V2KEYS[extra], 't%d' % rng.randint(1, 5)]
         else:
             kind = 'exact'
+    elif kind == 'abort':
+        kind = 'exact'
     h += ['t%d' % 150]
-    rel = list(order) + ([extra] if extra else [])
+    rel = [k for k in order if k != burst_released] + ([extra] if extra else [])
     rng.shuffle(rel)
     for k in rel:
         h += ['u%d' % V2KEYS[k], 't3']
@@ -53,14 +61,15 @@ def v2_case(rng, i):
     h += ['t300', 'q']
     return {'id': 'c09-v2-%d' % i, 'cfg': cfg, 'hist': h, 'sub': 'ksim', 'no_compare': True,
             'v2': {'chords': chords, 'target': target, 'layer': layer, 'kind': kind, 'extra': extra},
-            'tags': {'mode': 'chords-v2', 'scenario': kind, 'layer': layer}}
+            'tags': {'mode': 'chords-v2', 'scenario': kind, 'layer': layer, 'burst': burst}}
 
 
 def oracle(c, it):
     if 'v2' not in c or not it or it[0].startswith('PARSE-'):
         return None
     v = c['v2']
-    presses = [int(e[1:]) for l in it if l.startswith('@') for e in l.split(' ')[1:] if e[0] == 'd' and e[1:].isdigit()]
+    evs = [e for l in it if l.startswith('@') for e in l.split(' ')[1:]]
+    presses = [int(e[1:]) for e in evs if e[0] == 'd' and e[1:].isdigit()] + [e for e in evs if e[0] == 'U']
     disabled_here = [ch for ch in v['chords'] if v['layer'] in ch[4]]
     for ch in disabled_here:
         if ACT[ch[1]] in presses:
